@@ -17,6 +17,7 @@ STAT as inconclusive and only its wire clauses are checked.
 import LndModel.Prelude.Lines
 import LndModel.Prelude.Sha256
 import LndModel.C08.Model
+import LndModel.C08.BeaconDriver
 
 open LndModel LndModel.Lines LndModel.C08
 
@@ -542,7 +543,11 @@ def step (s : St) (line : String) : IO St := do
 end LndModel.C08.Driver
 
 open LndModel.C08.Driver in
-def main : IO Unit := do
+def main (args : List String) : IO Unit := do
+  -- stream `beacon`: the preimage-beacon harness of the root package (BeaconDriver.lean)
+  if args.contains "beacon" then
+    LndModel.C08.BeaconDriver.main
+    return
   let s ← LndModel.Lines.foldStdin step {}
   -- inconclusive outcomes are never violations, but they must stay rare: a defect that fails
   -- links or stalls the commitment dance everywhere would otherwise only show in STAT.
